@@ -15,7 +15,7 @@ CLAIMED = {
         design="DESIGN.md §4 C06"),
     "C13": dict(
         technique="static analysis: effect analysis of the OpenMP parallel-for (stores and callee closure), cache-coherence / co-update rule on the index maps, shape rule on resetACTNUM, writer/reader table agreement for EGRID (clang AST)",
-        text="Decides three structural clauses: (a) thread-count independence of the cell volumes - every iteration of the (only) OpenMP loop stores only to its own element or loop-local variables and its callee closure (depth 3) consists of const members and functions without static, global or mutable writes; (b) whoever writes one of ACTNUM / active count / active->global / global->active writes all four and invalidates the cached volumes, geometry writers outside construction invalidate the cache, and resetACTNUM builds mutually inverse maps (count-before-increment, -1 for inactive cells, every cell visited); (c) every EGRID array the readers require is written by EclipseGrid::save with the same element type and lengths cross from_si on save and to_si on load. Not decided: volumes, centres, depths, equivalence of input forms, additivity (numeric).",
+        text="Decides three structural clauses: (a) thread-count independence of the cell volumes - every iteration of the (only) OpenMP loop stores only to its own element or loop-local variables and its callee closure (depth 3) consists of const members and functions without static, global or mutable writes; (b) whoever writes one of ACTNUM / active count / active->global / global->active writes all four and invalidates the cached volumes, geometry writers outside construction invalidate the cache, and resetACTNUM builds mutually inverse maps (count-before-increment, -1 for inactive cells, every cell visited); (c) every EGRID array the readers require is written by EclipseGrid::save with the same element type and lengths cross from_si on save and to_si on load. GRIDUNIT rescales every stored length array (incl. the retained input COORD/ZCORN that save() writes) exactly once, guard and argument agreeing. Not decided: volumes, centres, depths, equivalence of input forms, additivity (numeric).",
         note="Trusted: std:: callees are re-entrant; one allow-listed geometry writer (fixupZCORN, idempotent after construction).",
         design="DESIGN.md §4 C13"),
     "C12": dict(
@@ -33,7 +33,7 @@ CLAIMED = {
         technique="static analysis: agreement of writer and reader tables (array names, element types, record order) extracted from the clang AST of the summary writers and the three readers",
         text="Decides narrowly: every SMSPEC array the legacy reader requires is written with a compatible element type; the UNSMRY record sequence SEQHDR,(MINISTEP,PARAMS float)+ is what the scanner accepts; the two ESMRY writers are siblings and emit exactly the ordered (name,type) sequence the ESMRY reader checks; V<n> vectors are float; combine/splitSummaryNumber are inverse. NOT decided (stated plainly): the positional seek arithmetic of ESmry::loadData/ExtESmry (offsets as a function of vector count and position), the time axis and restart chaining - an off-by-one in an offset formula is not caught.",
         note="Trusted: none beyond the AST. This check covers only the structural clause of the property.",
-        design="DESIGN.md §4 C10"),
+       A counter that shadows the size of a growing member container in the ESmry/ExtESmry constructors is not declared inside an enclosing loop (base-run chains).  design="DESIGN.md §4 C10"),
     "C07": dict(
         technique="static analysis: constants of EclIOdata.hpp against the published layout, switch/table pairing, write/read sequence extraction of the 16-byte header, bracket (head-data-tail) order rule per block loop, endian-flip pairing, sibling agreement of the block-geometry derivation (rational normal form), size formula normal form (clang AST)",
         text="Decides: the 28 layout constants equal the published Eclipse values (also catches symmetric changes the round-trip tests cannot see); both block tables pair each array type with its own constants; the binary header is written and read as 4+8+4+4+4 with both markers byte-swapped and checked; the formatted header is 30 characters; every block is written head-data-tail with head = tail = swapped byte count and the reader checks element-count range, short blocks and head == tail; each numeric type crosses the swap of its own type once in each direction; writer, reader and sizeOnDisk derive the block geometry identically incl. the C0NN adjustment; type strings map to the same enumerator in both directions; LOGI encoding; the sizeOnDiskBinary formula. Not decided: value round trip, number formatting (make_real_string_*), behaviour at specific lengths.",
@@ -66,7 +66,7 @@ CLAIMED = {
         design="DESIGN.md §4 C18"),
     "C05": dict(
         technique="static analysis: writer/reader table agreement over the clang ASTs of Aggregate{Well,Connection,Group,MSW}Data.cpp, rst/{well,connection,group,segment}.cpp and LoadRestart.cpp (slot, unit measure, summary vector, record index), with numeric equivalence classes of the measures taken from the UnitSystem tables and an index-provenance analysis for the segment records",
-        text="Decides the agreement of the restart writer's and reader's tables for the per-well, per-connection, per-group and per-segment arrays: every slot a load-bearing reader consumes is assigned by the writer; the measure the reader converts with is the measure the writer converted with, or the measure of the summary vector stored there (multisets, up to measures that have identical factors in all four unit systems); fields kept in output units flow only into UDAValue updates; the summary vector restored from an X* slot is the one stored there (derived vectors from the slots their definition names); slot names agree with the stored mnemonic; ISEG/RSEG records are written and fetched at segmentNumber()-1; array names and element types the readers request are the ones RestartIO::save writes; integer encoders/decoders of well and group control modes, guide-rate targets and connection direction are inverse tables; the ACTIONX run record (IACT/SACT items for max_run, run count +1/-1, min_wait, time of the last run relative to the start) is read from the items it was written to with the same measure; network and analytic/numeric aquifer arrays are included in the slot and unit rules, conversion chains being compared as signed products of unit factors in all four systems. NOT decided: value equality after a real save/load (precision, solution arrays, UDQ/ACTIONX state), agreement of well/group record order (loop position vs seqIndex(): a runtime invariant), and equivalence of the restarted schedule (Schedule::cmp).",
+        text="Decides the agreement of the restart writer's and reader's tables for the per-well, per-connection, per-group and per-segment arrays: every slot a load-bearing reader consumes is assigned by the writer; the measure the reader converts with is the measure the writer converted with, or the measure of the summary vector stored there (multisets, up to measures that have identical factors in all four unit systems); fields kept in output units flow only into UDAValue updates; the summary vector restored from an X* slot is the one stored there (derived vectors from the slots their definition names); slot names agree with the stored mnemonic; ISEG/RSEG records are written and fetched at segmentNumber()-1; array names and element types the readers request are the ones RestartIO::save writes; integer encoders/decoders of well and group control modes, guide-rate targets and connection direction are inverse tables; the ACTIONX run record (IACT/SACT items for max_run, run count +1/-1, min_wait, time of the last run relative to the start) is read from the items it was written to with the same measure; network and analytic/numeric aquifer arrays are included in the slot and unit rules, conversion chains being compared as signed products of unit factors in all four systems. The gas and water halves of the group reconstruction in Group.cpp read corresponding restart fields. NOT decided: value equality after a real save/load (precision, solution arrays, UDQ/ACTIONX state), agreement of well/group record order (loop position vs seqIndex(): a runtime invariant), and equivalence of the restarted schedule (Schedule::cmp).",
         note="Trusted: mnemonic->measure and slot-name->mnemonic grammars in rules/C05.py; tables/c05_deferred.json, c05_reader_only.json, c05_positional.json (one reason per entry). A reader field nobody uses is reported as information, not as a violation.",
         design="DESIGN.md §4 C05"),
     "C20": dict(
